@@ -258,7 +258,7 @@ Compare ==
        /\ pos' = endPos /\ posKnown' = TRUE /\ pstart' = pstart /\ dead' = dead
     /\ NextLine
 
-PostOp == phase = 0 /\ ~dead /\ E.op = "post" /\ UNCHANGED <<src, pos, posKnown>> /\ KeepDecoder /\ NextLine     \* validated by TracePost
+PostOp == phase = 0 /\ ~dead /\ E.op \in {"post", "parse"} /\ UNCHANGED <<src, pos, posKnown>> /\ KeepDecoder /\ NextLine     \* validated by TracePost
 (* C17: instances fed the same history must agree bit for bit (digests of every observation) *)
 Replicas ==
     /\ phase = 0 /\ E.op = "replicas"
@@ -267,7 +267,7 @@ Replicas ==
        ELSE Diag("IMPL", "replicas-differ", "replicas-differ", [mode |-> E.mode, group |-> CHOOSE gi \in bad : TRUE, n |-> Len(E.groups)])
     /\ UNCHANGED <<src, pos, posKnown>> /\ UNCHANGED <<lastPic, refPic, sor, dcoll, pstart>> /\ dead' = FALSE /\ NextLine
 SkipDead == phase = 0 /\ dead /\ E.op # "replicas" /\ E.op # "new" /\ UNCHANGED <<src, pos, posKnown>> /\ KeepDecoder /\ NextLine
-Unknown == phase = 0 /\ ~dead /\ E.op \notin {"new", "newreader", "append", "cleanup", "decode", "post", "replicas"} /\ Diag("HARNESS", "unknown-op", "harness", E.op)
+Unknown == phase = 0 /\ ~dead /\ E.op \notin {"new", "newreader", "append", "cleanup", "decode", "post", "parse", "replicas"} /\ Diag("HARNESS", "unknown-op", "harness", E.op)
            /\ UNCHANGED <<src, pos, posKnown>> /\ KeepDecoder /\ NextLine
 
 Init == /\ l = 1 /\ phase = 0 /\ lastPic = NoPic /\ refPic = NoPic /\ src = <<>> /\ pos = 0 /\ posKnown = TRUE /\ pstart = 0
